@@ -103,6 +103,7 @@ type STex struct {
 type SMat struct {
 	Leaves   []Leaf `json:"leaves"`
 	ExtOrder string `json:"extorder"` // extension ids in slice order (part of the Go value, not of the glTF material)
+	Shape    string `json:"shape"`    // which optional members are nil (part of the Go value: nil and "explicit default" differ)
 }
 
 type STrs struct {
@@ -417,7 +418,18 @@ func (sp *srcProjector) material(m *gltf.PolyformMaterial) int {
 	for _, e := range m.Extensions {
 		order += e.ExtensionID() + ";"
 	}
-	sp.src.Mats = append(sp.src.Mats, SMat{Leaves: sortLeaves(l), ExtOrder: order})
+	shape := ""
+	for _, isNil := range []bool{m.PbrMetallicRoughness == nil, pbr.BaseColorFactor == nil, pbr.MetallicFactor == nil,
+		pbr.RoughnessFactor == nil, m.EmissiveFactor == nil, m.AlphaMode == nil, m.AlphaCutoff == nil,
+		m.NormalTexture == nil || m.NormalTexture.Scale == nil, m.OcclusionTexture == nil || m.OcclusionTexture.Strength == nil,
+		m.Extras == nil} {
+		if isNil {
+			shape += "-"
+		} else {
+			shape += "+"
+		}
+	}
+	sp.src.Mats = append(sp.src.Mats, SMat{Leaves: sortLeaves(l), ExtOrder: order, Shape: shape})
 	sp.matIds[m] = len(sp.src.Mats)
 	return len(sp.src.Mats)
 }
